@@ -126,24 +126,30 @@ func init() {
 }
 
 type scenario struct {
-	name   string
-	n      int
-	byz    map[int64]bool
-	inputs map[int64]int64 // honest member -> input value (absent = never obtains a proposal)
-	values []int64         // adversary's value alphabet
-	R      int64           // rounds are not expanded beyond R
-	noise  int
-	capSt  int
-	allSub bool           // all quorum subsets (n<=4) vs canonical subsets
-	groups [][]int        // partition of the honest members (indices into honest) into lockstep groups
-	late   map[int64]bool // members whose input is not available at start (delivered as an explicit event)
-	base   string
-	maprot int
+	name    string
+	n       int
+	byz     map[int64]bool
+	inputs  map[int64]int64 // honest member -> input value (absent = never obtains a proposal)
+	values  []int64         // adversary's value alphabet
+	R       int64           // rounds are not expanded beyond R
+	noise   int
+	capSt   int
+	allSub  bool           // all quorum subsets (n<=4) vs canonical subsets
+	groups  [][]int        // partition of the honest members (indices into honest) into lockstep groups
+	late    map[int64]bool // members whose input is not available at start (delivered as an explicit event)
+	base    string
+	maprot  int
+	noForge bool // the coalition only sends validly justified messages (equivocation, selective inclusion, votes)
 }
 
 func (sc *scenario) leader(round int64) int64 { return (round - 1) % int64(sc.n) }
-func (sc *scenario) q() int                   { return (2*sc.n + 2) / 3 }
-func (sc *scenario) f() int                   { return (sc.n - 1) / 3 }
+func (sc *scenario) q() int                   { return (2*sc.n + 2) / 3 } // specification: ceil(2n/3)
+func (sc *scenario) f() int                   { return (sc.n - 1) / 3 }   // specification: floor((n-1)/3)
+
+// implQ/implF are the thresholds the implementation under test uses; the delivery menu is built from them so
+// that a changed threshold is exercised (the oracles use the specification's values).
+func (sc *scenario) implQ() int { return Definition[int64, int64, int64]{Nodes: sc.n}.Quorum() }
+func (sc *scenario) implF() int { return Definition[int64, int64, int64]{Nodes: sc.n}.Faulty() }
 
 type lresult struct {
 	proc      int64
@@ -403,6 +409,7 @@ type checker struct {
 	outcomes                            map[string]bool
 	props                               map[string]bool // which oracles to apply ("C02","C03","C04u")
 	exits                               map[string]int
+	dbg                                 map[string]int
 }
 
 func (c *checker) intern(s *lstate, hist []levent) *lstate {
@@ -625,7 +632,7 @@ func (c *checker) byzMessages(g *gstate) []*vmsg {
 				if sc.leader(r) == b && r == 1 {
 					add(c.tbl.mk(MsgPrePrepare, b, r, v, 0, 0, nil))
 				}
-				if sc.leader(r) != b && r == 1 && v == sc.values[0] {
+				if sc.leader(r) != b && r == 1 && v == sc.values[0] && !sc.noForge {
 					add(c.tbl.mk(MsgPrePrepare, b, r, v, 0, 0, nil)) // proposal from a non-leader
 				}
 				// DECIDED from available commits: genuine quorum, and forgeries
@@ -633,13 +640,14 @@ func (c *checker) byzMessages(g *gstate) []*vmsg {
 				if len(cv) >= q {
 					add(c.tbl.mk(MsgDecided, b, r, v, 0, 0, cv[:q]))
 				}
-				if len(cv) >= q-1 && q >= 2 {
+				if len(cv) >= q-1 && q >= 2 && !sc.noForge {
 					short := cv[:q-1]
 					add(c.tbl.mk(MsgDecided, b, r, v, 0, 0, short))                                         // too few
 					add(c.tbl.mk(MsgDecided, b, r, v, 0, 0, append(append([]*vmsg{}, short...), short[0]))) // padded with a duplicate
 					for _, v2 := range sc.values {
 						if v2 != v {
 							add(c.tbl.mk(MsgDecided, b, r, v, 0, 0, append(append([]*vmsg{}, short...), c.tbl.mk(MsgCommit, b, r, v2, 0, 0, nil))))  // mixed values
+							add(c.tbl.mk(MsgDecided, b, r, v2, 0, 0, append(append([]*vmsg{}, short...), c.tbl.mk(MsgCommit, b, r, v2, 0, 0, nil)))) // other value, commits mostly for v
 							add(c.tbl.mk(MsgDecided, b, r, v, 0, 0, append(append([]*vmsg{}, short...), c.tbl.mk(MsgCommit, b, r+1, v, 0, 0, nil)))) // wrong round
 							add(c.tbl.mk(MsgDecided, b, r, v, 0, 0, append(append([]*vmsg{}, short...), c.tbl.mk(MsgPrepare, b, r, v, 0, 0, nil))))  // wrong type
 							break
@@ -658,7 +666,7 @@ func (c *checker) byzMessages(g *gstate) []*vmsg {
 					if len(pvs) >= q {
 						rcs[r] = append(rcs[r], c.tbl.mk(MsgRoundChange, b, r, 0, pr, pv, pvs[:q]))
 					}
-					if len(pvs) >= q-1 && q >= 2 {
+					if len(pvs) >= q-1 && q >= 2 && !sc.noForge {
 						short := pvs[:q-1]
 						// forged prepared claims: too few, duplicate source, one prepare of another value, claim without certificate
 						add(c.tbl.mk(MsgRoundChange, b, r, 0, pr, pv, short))
@@ -670,7 +678,7 @@ func (c *checker) byzMessages(g *gstate) []*vmsg {
 							}
 						}
 					}
-					if pr == 1 && pv == sc.values[0] {
+					if pr == 1 && pv == sc.values[0] && !sc.noForge {
 						add(c.tbl.mk(MsgRoundChange, b, r, 0, pr, pv, nil))
 					}
 				}
@@ -680,6 +688,7 @@ func (c *checker) byzMessages(g *gstate) []*vmsg {
 			}
 		}
 		// PRE-PREPARE of b as leader of round r>=2: from quorums of available ROUND-CHANGEs
+		ppClass := map[string]bool{}
 		for r := int64(2); r <= sc.R; r++ {
 			if sc.leader(r) != b {
 				continue
@@ -703,7 +712,7 @@ func (c *checker) byzMessages(g *gstate) []*vmsg {
 			}
 			sort.Slice(srcs, func(i, j int) bool { return srcs[i] < srcs[j] })
 			for _, size := range []int{q, q - 1} {
-				if size < 1 {
+				if size < 1 || (size < q && sc.noForge) {
 					continue
 				}
 				for _, subset := range subsets(len(srcs), size) {
@@ -732,6 +741,17 @@ func (c *checker) byzMessages(g *gstate) []*vmsg {
 						if hp != nil {
 							just = append(just, hp.just...)
 						}
+						// One representative per class (size of the ROUND-CHANGE set, highest prepared round/value it
+						// exhibits, whether that claim carries a certificate): which honest ROUND-CHANGEs the leader
+						// includes only matters through the prepared value it thereby exhibits or hides.
+						cls := fmt.Sprintf("r%d/n%d", r, len(qrc))
+						if hp != nil {
+							cls += fmt.Sprintf("/hp%d.%d/j%d", hp.pr, hp.pv, len(hp.just))
+						}
+						if ppClass[cls] {
+							continue
+						}
+						ppClass[cls] = true
 						for _, v := range sc.values {
 							// includes proposals that ignore the highest prepared value: they must be rejected
 							add(c.tbl.mk(MsgPrePrepare, b, r, v, 0, 0, just))
@@ -895,7 +915,10 @@ func (c *checker) memberMenu(g *gstate) []gevent {
 			allDecided = false
 		}
 	}
-	q, f := sc.q(), sc.f()
+	q, f := sc.implQ(), sc.implF()
+	if sq := sc.q(); sq < q {
+		q = sq // never withhold what the specification's quorum would enable
+	}
 	for hi, p := range c.honest {
 		s := c.lstates[g.local[hi]]
 		if s.exited != "" {
@@ -911,6 +934,11 @@ func (c *checker) memberMenu(g *gstate) []gevent {
 			for id := range g.pool {
 				if m := c.tbl.all[id]; m.typ == MsgDecided && m.src == p {
 					have = true
+				}
+			}
+			for _, m := range avail {
+				if m.typ == MsgDecided && m.src != p {
+					out = append(out, gevent{hi: hi, evs: []levent{{'r', m.id}}})
 				}
 			}
 			if !have {
@@ -1191,6 +1219,18 @@ func (c *checker) explore(deadline time.Time) (exhaustive bool) {
 					continue
 				}
 				c.seen[k] = struct{}{}
+				if os.Getenv("DBG_SC") != "" {
+					kind := "?"
+					e0 := ev.evs[0]
+					switch e0.kind {
+					case 'r':
+						m := c.tbl.all[e0.arg]
+						kind = fmt.Sprintf("%s.r%d.x%d.byz%v.noise%v", tnames[m.typ], m.round, len(ev.evs), c.sc.byz[m.src], ev.noise)
+					default:
+						kind = string(e0.kind)
+					}
+					c.dbg[kind]++
+				}
 				d := c.nodes[ni].depth + 1
 				if int(d) > c.maxDepth {
 					c.maxDepth = int(d)
@@ -1206,57 +1246,72 @@ func (c *checker) explore(deadline time.Time) (exhaustive bool) {
 
 func c02scenarios() []*scenario {
 	th := enumx.Thorough()
-	capQ := 150000
+	capSt := 400000
 	if th {
-		capQ = 4000000
-	}
-	eq := func(n int, v int64) map[int64]int64 {
-		m := map[int64]int64{}
-		for i := 0; i < n; i++ {
-			m[int64(i)] = v
-		}
-		return m
+		capSt = 6000000
 	}
 	var scs []*scenario
-	maxGroups := 2
-	var lateInput map[int64]bool
-	add := func(name string, n int, byz []int64, inputs map[int64]int64, values []int64, R int64, noise int) {
+	type opt struct {
+		noForge bool
+		noise   int
+		parts   [][][]int // nil = all partitions into <= maxGroups groups
+		rot     int
+	}
+	add := func(name string, n int, byz []int64, inputs map[int64]int64, values []int64, R int64, o opt) {
 		b := map[int64]bool{}
 		for _, x := range byz {
 			b[x] = true
 			delete(inputs, x)
 		}
 		nh := n - len(b)
-		for _, part := range partitions(nh, maxGroups) {
+		parts := o.parts
+		if parts == nil {
+			parts = partitions(nh, 2)
+		}
+		for _, part := range parts {
 			in2 := map[int64]int64{}
 			for k, v := range inputs {
 				in2[k] = v
 			}
-			scs = append(scs, &scenario{name: fmt.Sprintf("%s/groups=%v", name, part), base: name, n: n, byz: b, inputs: in2, values: values, R: R,
-				noise: noise, capSt: capQ, allSub: n <= 4, groups: part, late: lateInput})
+			nm := fmt.Sprintf("%s/groups=%v", name, part)
+			if o.rot > 0 {
+				nm += fmt.Sprintf("/maprot=%d", o.rot)
+			}
+			scs = append(scs, &scenario{name: nm, base: name, n: n, byz: b, inputs: in2, values: values, R: R, noise: o.noise, capSt: capSt,
+				allSub: th && n <= 4 && len(part) == 1, groups: part, noForge: o.noForge, maprot: o.rot})
 		}
 	}
-	// n=3 (f=0)
-	add("n3-distinct-R2", 3, nil, map[int64]int64{0: 1, 1: 2, 2: 3}, nil, 2, 0)
-	add("n3-distinct-R2-noise1", 3, nil, map[int64]int64{0: 1, 1: 2, 2: 3}, nil, 2, 1)
-	// n=4, no Byzantine member
-	add("n4-equal-R2", 4, nil, eq(4, 1), nil, 2, 0)
-	add("n4-distinct-R2", 4, nil, map[int64]int64{0: 1, 1: 2, 2: 3, 3: 4}, nil, 2, 0)
-	add("n4-one-without-input-R2", 4, nil, map[int64]int64{1: 2, 2: 3, 3: 4}, nil, 2, 0)
-	// n=4, one Byzantine member
-	add("n4-byz-leader1-R2", 4, []int64{0}, map[int64]int64{1: 1, 2: 1, 3: 2}, []int64{1, 2}, 2, 0)
-	add("n4-byz-leader2-R2", 4, []int64{1}, map[int64]int64{0: 1, 2: 1, 3: 2}, []int64{1, 2}, 2, 0)
-	add("n4-byz-nonleader-R2", 4, []int64{3}, map[int64]int64{0: 1, 1: 2, 2: 2}, []int64{1, 2}, 2, 0)
-	add("n4-byz-leader1-R1-noise1", 4, []int64{0}, map[int64]int64{1: 1, 2: 1, 3: 2}, []int64{1, 2}, 1, 1)
+	in3 := func() map[int64]int64 { return map[int64]int64{0: 1, 1: 2, 2: 3} }
+	in4 := func() map[int64]int64 { return map[int64]int64{0: 1, 1: 2, 2: 3, 3: 4} }
+	in4b := func() map[int64]int64 { return map[int64]int64{0: 1, 1: 1, 2: 1, 3: 2} }
+	v12 := []int64{1, 2}
+	// Byzantine leader of round 1 / round 2 / non-leader, n=4 (members 0..3, leader(r) = (r-1) mod n)
+	add("n4-byz-leader1-R1-forge", 4, []int64{0}, in4b(), v12, 1, opt{})
+	add("n4-byz-leader2-R2-strategy", 4, []int64{1}, in4b(), v12, 2, opt{noForge: true})
+	add("n4-byz-leader1-R2-strategy", 4, []int64{0}, in4b(), v12, 2, opt{noForge: true})
+	add("n4-distinct-R2", 4, nil, in4(), nil, 2, opt{})
+	add("n3-distinct-R2", 3, nil, in3(), nil, 2, opt{})
+	add("n4-byz-nonleader-R2-strategy", 4, []int64{3}, in4b(), v12, 2, opt{noForge: true})
+	add("n4-byz-leader2-R2-forge", 4, []int64{1}, in4b(), v12, 2, opt{parts: [][][]int{{{0, 1, 2}}, {{0}, {1, 2}}}})
+	add("n4-one-without-input-R2", 4, nil, map[int64]int64{1: 2, 2: 3, 3: 4}, nil, 2, opt{})
+	add("n4-byz-leader1-R1-noise1", 4, []int64{0}, in4b(), v12, 1, opt{noise: 1, parts: [][][]int{{{0, 1, 2}}, {{0}, {1, 2}}}})
+	add("n3-distinct-R2-noise1", 3, nil, in3(), nil, 2, opt{noise: 1, parts: [][][]int{{{0, 1, 2}}, {{0}, {1, 2}}}})
 	if th {
-		add("n4-distinct-R3", 4, nil, map[int64]int64{0: 1, 1: 2, 2: 3, 3: 4}, nil, 3, 0)
-		add("n4-byz-leader1-R3", 4, []int64{0}, map[int64]int64{1: 1, 2: 1, 3: 2}, []int64{1, 2}, 3, 0)
-		add("n4-byz-leader2-R3", 4, []int64{1}, map[int64]int64{0: 1, 2: 1, 3: 2}, []int64{1, 2}, 3, 0)
-		add("n4-byz-leader2-R2-noise1", 4, []int64{1}, map[int64]int64{0: 1, 2: 1, 3: 2}, []int64{1, 2}, 2, 1)
-		add("n4-distinct-R2-noise1", 4, nil, map[int64]int64{0: 1, 1: 2, 2: 3, 3: 4}, nil, 2, 1)
-		add("n5-byz-leader1-R2", 5, []int64{0}, map[int64]int64{1: 1, 2: 1, 3: 2, 4: 2}, []int64{1, 2}, 2, 0)
-		add("n6-byz-leader2-R2", 6, []int64{1}, map[int64]int64{0: 1, 2: 1, 3: 2, 4: 2, 5: 1}, []int64{1, 2}, 2, 0)
-		add("n7-byz2-R2", 7, []int64{0, 1}, map[int64]int64{2: 1, 3: 1, 4: 2, 5: 2, 6: 1}, []int64{1, 2}, 2, 0)
+		add("n4-distinct-R3", 4, nil, in4(), nil, 3, opt{})
+		add("n4-byz-leader1-R3-strategy", 4, []int64{0}, in4b(), v12, 3, opt{noForge: true})
+		add("n4-byz-leader2-R3-strategy", 4, []int64{1}, in4b(), v12, 3, opt{noForge: true})
+		add("n4-byz-leader3-R3-strategy", 4, []int64{2}, in4b(), v12, 3, opt{noForge: true})
+		add("n4-byz-leader1-R2-forge", 4, []int64{0}, in4b(), v12, 2, opt{})
+		add("n4-byz-nonleader-R2-forge", 4, []int64{3}, in4b(), v12, 2, opt{})
+		add("n4-distinct-R2-3groups", 4, nil, in4(), nil, 2, opt{parts: partitions(4, 3)[len(partitions(4, 2)):]})
+		add("n4-byz-leader2-R2-3groups", 4, []int64{1}, in4b(), v12, 2, opt{noForge: true, parts: [][][]int{{{0}, {1}, {2}}}})
+		for rot := 1; rot <= 3; rot++ {
+			add("n4-distinct-R2", 4, nil, in4(), nil, 2, opt{rot: rot, parts: [][][]int{{{0}, {1, 2, 3}}, {{0, 1}, {2, 3}}}})
+			add("n4-byz-leader2-R2-strategy", 4, []int64{1}, in4b(), v12, 2, opt{noForge: true, rot: rot, parts: [][][]int{{{0}, {1, 2}}}})
+		}
+		add("n5-byz-leader1-R2-strategy", 5, []int64{0}, map[int64]int64{1: 1, 2: 1, 3: 2, 4: 2}, v12, 2, opt{noForge: true})
+		add("n6-byz-leader2-R2-strategy", 6, []int64{1}, map[int64]int64{0: 1, 2: 1, 3: 2, 4: 2, 5: 1}, v12, 2, opt{noForge: true, parts: [][][]int{{{0, 1, 2, 3, 4}}, {{0, 1}, {2, 3, 4}}, {{0}, {1, 2, 3, 4}}, {{0, 1, 2}, {3, 4}}}})
+		add("n7-byz2-R2-strategy", 7, []int64{0, 1}, map[int64]int64{2: 1, 3: 1, 4: 2, 5: 2, 6: 1}, v12, 2, opt{noForge: true, parts: [][][]int{{{0, 1, 2, 3, 4}}, {{0, 1}, {2, 3, 4}}, {{0, 1, 2}, {3, 4}}, {{0}, {1, 2, 3, 4}}}})
 	}
 	return scs
 }
@@ -1295,19 +1350,22 @@ func runC02(t *testing.T, prop string, props map[string]bool) {
 	if mine == 0 {
 		return
 	}
+	done := 0
+	_ = total
 	for i, sc := range scs {
 		if r.NSh > 1 && i%r.NSh != r.Shard {
 			continue
 		}
 		c := &checker{tb: t, r: r, sc: sc, tbl: &msgTable{byKey: map[string]*vmsg{}}, lindex: map[string]int32{}, memo: map[lkey]*ltrans{},
-			seen: map[[16]byte]struct{}{}, evIndex: map[string]int32{}, outcomes: map[string]bool{}, props: props, exits: map[string]int{}}
+			seen: map[[16]byte]struct{}{}, evIndex: map[string]int32{}, outcomes: map[string]bool{}, props: props, exits: map[string]int{}, dbg: map[string]int{}}
 		for p := int64(0); p < int64(sc.n); p++ {
 			if !sc.byz[p] {
 				c.honest = append(c.honest, p)
 			}
 		}
 		runtime.VerifSetMapRot(true, uint64(sc.maprot))
-		deadline := time.Now().Add(total / time.Duration(mine))
+		deadline := time.Now().Add(time.Until(r.Deadline) / time.Duration(mine-done))
+		done++
 		t0 := time.Now()
 		ex := c.explore(deadline)
 		if !ex {
@@ -1351,13 +1409,28 @@ func TestVerifDebugC02(t *testing.T) {
 		}
 	}
 	c := &checker{tb: t, r: enumx.New(t, "C02"), sc: sc, tbl: &msgTable{byKey: map[string]*vmsg{}}, lindex: map[string]int32{}, memo: map[lkey]*ltrans{},
-		seen: map[[16]byte]struct{}{}, evIndex: map[string]int32{}, outcomes: map[string]bool{}, props: map[string]bool{}, exits: map[string]int{}}
+		seen: map[[16]byte]struct{}{}, evIndex: map[string]int32{}, outcomes: map[string]bool{}, props: map[string]bool{}, exits: map[string]int{}, dbg: map[string]int{}}
 	for p := int64(0); p < int64(sc.n); p++ {
 		if !sc.byz[p] {
 			c.honest = append(c.honest, p)
 		}
 	}
+	runtime.VerifSetMapRot(true, 0)
 	c.explore(time.Now().Add(20 * time.Second))
+	fmt.Println("states", len(c.nodes), "local", len(c.lstates), "msgs", len(c.tbl.all))
+	var ks []string
+	for k, v := range c.dbg {
+		ks = append(ks, fmt.Sprintf("%7d %s", v, k))
+	}
+	sort.Strings(ks)
+	for _, k := range ks {
+		fmt.Println(k)
+	}
+	perMember := map[byte]int{}
+	for _, l := range c.lstates {
+		perMember[l.key[1]]++
+	}
+	fmt.Println("local states per member", perMember)
 }
 
 func TestVerifDebugC02b(t *testing.T) {
